@@ -1,6 +1,6 @@
 """C04 -- sector allocation is sound.  DESIGN.md section 8.4."""
 from harness import common, pyspec, sysimg, sysprops
-from harness.props import packleaf, celeaf, accountleaf
+from harness.props import packleaf, celeaf, accountleaf, accountrrleaf
 
 MODULE = 'C04'
 THEOREMS = ['C04_bump_disjoint', 'C04_bump_inside', 'C04_ceiling_div_covers', 'C04_dir_blocks_cover_records', 'C04_ce_blocks_inv', 'C04_ce_entry_placed', 'C04_ce_gap_offbyone_refuted', 'C04_ptr_extents_cover', 'C04_nonvacuous',
@@ -30,11 +30,12 @@ def oracle(b, report):
 
 
 def run(ctx):
-    common.proof_stage(ctx, MODULE, THEOREMS)
+    common.proof_stage(ctx, MODULE, sorted(set(THEOREMS) | set(common.theorems_of(MODULE))))
     common.setup_impl_path()
     packleaf.leaf_correspondence(ctx)
     celeaf.leaf_correspondence(ctx)
     accountleaf.correspondence(ctx)
+    accountrrleaf.correspondence(ctx)
     quick = ctx.tier == 'quick'
     sysprops.run_oracle(ctx, 'C04', sysprops.histories(ctx, 150 if quick else 2500, RECIPES,
                                                        dict(allow_refusals=False, fat_dir=0.3, long_rr=0.12, link_bias=0.15),
